@@ -50,9 +50,77 @@ func isLogCall(c *ast.CallExpr) bool {
 	return false
 }
 
+// benign enumerates behaviour-preserving rewrites (every alarm on one of them is a false alarm of the checker):
+//   benign-spill-params   a closure that mentions every parameter (go/ssa then keeps them in memory cells)
+//   benign-swap-cmp       a == b -> b == a, a < b -> b > a, ...
+//   benign-if-swap        if c {A} else {B} -> if !(c) {B} else {A}
+func benign(enc *json.Encoder, fset *token.FileSet, file string, fd *ast.FuncDecl, name string, text []byte) {
+	var ps []string
+	add := func(fl *ast.FieldList) {
+		if fl == nil {
+			return
+		}
+		for _, f := range fl.List {
+			for _, n := range f.Names {
+				if n.Name != "_" {
+					ps = append(ps, n.Name)
+				}
+			}
+		}
+	}
+	add(fd.Recv)
+	add(fd.Type.Params)
+	if len(ps) > 0 {
+		var b strings.Builder
+		b.WriteString("\n\t_ = func() {")
+		for _, p := range ps {
+			b.WriteString(" _ = " + p + ";")
+		}
+		b.WriteString(" }\n")
+		off := fset.Position(fd.Body.Lbrace).Offset + 1
+		enc.Encode(mut{File: file, Line: fset.Position(fd.Body.Lbrace).Line, Kind: "benign-spill-params", Func: name, Start: off, End: off, New: b.String(), Old: ""})
+	}
+	flip := map[token.Token]string{token.EQL: "==", token.NEQ: "!=", token.LSS: ">", token.GTR: "<", token.LEQ: ">=", token.GEQ: "<="}
+	ast.Inspect(fd.Body, func(n ast.Node) bool {
+		switch x := n.(type) {
+		case *ast.BinaryExpr:
+			if op, ok := flip[x.Op]; ok {
+				l, r := src(fset, x.X), src(fset, x.Y)
+				if _, isLit := x.Y.(*ast.BasicLit); isLit || r == "nil" {
+					// keep `x == nil` / `x > 0` readable forms too: still swap, it is legal Go
+				}
+				wrap := func(e ast.Expr, s string) string {
+					if _, ok := e.(*ast.BinaryExpr); ok {
+						return "(" + s + ")"
+					}
+					return s
+				}
+				enc.Encode(mut{File: file, Line: fset.Position(x.Pos()).Line, Kind: "benign-swap-cmp", Func: name,
+					Start: fset.Position(x.Pos()).Offset, End: fset.Position(x.End()).Offset, New: wrap(x.Y, r) + " " + op + " " + wrap(x.X, l), Old: src(fset, x)})
+			}
+		case *ast.IfStmt:
+			if x.Else != nil && x.Init == nil {
+				if eb, ok := x.Else.(*ast.BlockStmt); ok {
+					cond := string(text[fset.Position(x.Cond.Pos()).Offset:fset.Position(x.Cond.End()).Offset])
+					thenB := string(text[fset.Position(x.Body.Pos()).Offset:fset.Position(x.Body.End()).Offset])
+					elseB := string(text[fset.Position(eb.Pos()).Offset:fset.Position(eb.End()).Offset])
+					enc.Encode(mut{File: file, Line: fset.Position(x.Pos()).Line, Kind: "benign-if-swap", Func: name,
+						Start: fset.Position(x.Pos()).Offset, End: fset.Position(x.End()).Offset, New: "if !(" + cond + ") " + elseB + " else " + thenB, Old: "if " + cond})
+				}
+			}
+		}
+		return true
+	})
+}
+
 func main() {
 	enc := json.NewEncoder(os.Stdout)
-	for _, file := range os.Args[1:] {
+	args := os.Args[1:]
+	doBenign := false
+	if len(args) > 0 && args[0] == "-benign" {
+		doBenign, args = true, args[1:]
+	}
+	for _, file := range args {
 		fset := token.NewFileSet()
 		f, err := parser.ParseFile(fset, file, nil, parser.ParseComments)
 		if err != nil {
@@ -67,6 +135,11 @@ func main() {
 			name := fd.Name.Name
 			if fd.Recv != nil && len(fd.Recv.List) > 0 {
 				name = strings.TrimPrefix(src(fset, fd.Recv.List[0].Type), "*") + "." + name
+			}
+			if doBenign {
+				text, _ := os.ReadFile(file)
+				benign(enc, fset, file, fd, name, text)
+				continue
 			}
 			ast.Inspect(fd.Body, func(n ast.Node) bool {
 				switch x := n.(type) {
